@@ -118,7 +118,7 @@ CompleteWorkflowRC(n) == [Proto("CompleteWorkflow", "", "") EXCEPT !.rc = n, !.d
 CancelWorkflowM      == Proto("CancelWorkflow", "", "")
 StartWorkflowM       == Proto("StartWorkflow", "", "")
 JumpM(s, tgt)        == [Proto("JumpToStage", s, "") EXCEPT !.target = tgt]
-SignalM(s, pers, k)  == [Proto("SignalStage", s, "") EXCEPT !.sig = ToString(k), !.pers = pers]   \* k-th signal sent
+SignalM(s, pers, k)  == [Proto("SignalStage", s, "") EXCEPT !.sig = IF P.sigSame THEN "x" ELSE ToString(k), !.pers = pers]   \* k-th signal sent (P.sigSame: every signal has the same name and payload)
 PauseTaskM(t)        == Proto("PauseTask", StageOf(t), t)
 ResumeStageM(s)      == Proto("ResumeStage", s, "")
 RestartStageM(s)     == Proto("RestartStage", s, "")
